@@ -142,8 +142,9 @@ Definition cd_fields (pre : list Z) (c : cb) : cb :=
 (* ---------- wire functions ----------
    w_c20_si4   : si1 hl0 hfill bg npay pay_0 .. pay_{npay-1} (idx mask)*      (table / hopping[] as in w_c20_decode)
                  the CBCH members start as chan_nr 201, h 202, tsc 203, maio 204, hsn 205, arfcn 60001
-     observation: rc off left chan_nr h tsc maio hsn arfcn hopp_len hopping[0..63] (idx newmask)*  |  -998 (SOOB)
-   w_c20_render: hl0 hfill bg nlv lv_0 .. lv_{nlv-1} (idx mask)*
+     observation: rc rest_off rest_len chan_nr h tsc maio hsn arfcn hopp_len hopping[0..63] (idx newmask)*  |  -998 (SOOB)
+                 (rest_off rest_len: the arguments data - si->data, payload_len of the call of gsm48_decode_si4_rest; -1 -1 if not called)
+   w_c20_render: hl0 hfill bg nlv lv_0 .. lv_{nlv-1} (idx mask)*              (nlv = c_MOB_ALLOC_LV_SIZE, the whole array)
      observation: rc hopp_len hopping[0..63] (idx newmask)*  |  -998 *)
 Definition cb0 : cb := mkcb 201 202 203 204 205 60001.
 
@@ -160,7 +161,8 @@ Definition w_c20_si4 (a : list Z) : list Z :=
               let hop := map (fun k => (hfill + k) mod 65536) (range 0 c_HOPPING_SIZE) in
               match si4_tail pay si1 (mkst freq hop hl0) cb0 with
               | SRet rc s c off lft =>
-                  rc :: off :: lft :: cb_chan_nr c :: cb_h c :: cb_tsc c :: cb_maio c :: cb_hsn c :: cb_arfcn c ::
+                  (* if (payload_len > 0) gsm48_decode_si4_rest(s, data, payload_len): the arguments of the call, or -1 -1 *)
+                  rc :: (if (rc =? 0) && (0 <? lft) then off else -1) :: (if (rc =? 0) && (0 <? lft) then lft else -1) :: cb_chan_nr c :: cb_h c :: cb_tsc c :: cb_maio c :: cb_hsn c :: cb_arfcn c ::
                   s_hlen s :: s_hop s ++ diff 0 freq (s_freq s)
               | SOOB => [-998]
               end
@@ -173,7 +175,7 @@ Definition w_c20_si4 (a : list Z) : list Z :=
 Definition w_c20_render (a : list Z) : list Z :=
   match a with
   | hl0 :: hfill :: bg :: nlv :: rest =>
-      if byte_ok hl0 && byte_ok bg && (0 <=? nlv) && (nlv <=? Zlength rest) && (0 <=? hfill) && (hfill <? 65536) then
+      if byte_ok hl0 && byte_ok bg && (nlv =? c_MOB_ALLOC_LV_SIZE) && (0 <=? nlv) && (nlv <=? Zlength rest) && (0 <=? hfill) && (hfill <? 65536) then
         let lv := firstn (Z.to_nat nlv) rest in
         let ps := skipn (Z.to_nat nlv) rest in
         if forallb byte_ok lv then
